@@ -48,15 +48,16 @@ def _wrap(name, mod):
                 if isinstance(number, str):
                     _add('C01|%s|returns-nonstr|doctest' % name, 'validate(%r) returned %r' % (number, v), {'module': name, 'arg': number, 'cls': 'doctest'})
             else:
+                trig = 'plain-input' if isinstance(number, str) and all('!' <= ch <= '~' for ch in number.strip(' ')) else 'blank-control-or-non-ascii-inside'
                 if v != v.strip():
-                    _add('C02|%s|surrounding-whitespace' % name, 'validate(%r) returned %r' % (number, v), {'module': name, 'arg': number, 'options': {}, 'cls': 'doctest'})
+                    _add('C02|%s|surrounding-whitespace|%s' % (name, trig), 'validate(%r) returned %r' % (number, v), {'module': name, 'arg': number, 'options': {}, 'cls': 'doctest'})
                 try:
                     v2 = real_validate(v, *args, **kwargs)
                     if v2 != v:
-                        _add('C02|%s|refeed-changed' % name, 'validate(%r) returned %r, validating that returns %r' % (number, v, v2),
+                        _add('C02|%s|refeed-changed|%s' % (name, trig), 'validate(%r) returned %r, validating that returns %r' % (number, v, v2),
                              {'module': name, 'arg': number, 'options': {}, 'cls': 'doctest'})
                 except ValidationError as e:
-                    _add('C02|%s|refeed-rejected' % name, 'validate(%r) returned %r, validating that raises %s' % (number, v, type(e).__name__),
+                    _add('C02|%s|refeed-rejected|%s' % (name, trig), 'validate(%r) returned %r, validating that raises %s' % (number, v, type(e).__name__),
                          {'module': name, 'arg': number, 'options': {}, 'cls': 'doctest'})
                 except Exception:  # noqa: B902
                     pass
